@@ -23,6 +23,8 @@ RULES = {
              "UP to whole units through a recognised idiom (div_ceil, next_multiple_of, (x + D - 1) / D * D, each at least one unit). Any other stride expression is reported: a stride "
              "that overshoots for some fill level (x / D + 1 for an exactly full block) jumps over a unit that holds acknowledged entries, one that undershoots re-reads payload bytes "
              "as headers",
+    "C06.6": "a consumer's persisted position is mapped back to the recovered chain by block identity (= C09.3): every store to the cursor's chain index is a constant, the chain "
+             "length, +1, derived from the persisted sealed index, or the result of a search over the chain by block id - helpers are looked into",
 }
 
 
@@ -301,6 +303,8 @@ def run(ctx):
     check_entry_scan_bound(ctx, facts)
     check_scan_stride(ctx, facts)
     check_read_side_ignores_limit(ctx, facts)
+    from .c09 import check_position_translation
+    check_position_translation(ctx, facts, rid="C06.6")
     ctx.assume("NOT decided: cursor translation across recovery's synthetic block ids, counts after restart, file ordering under clock regression (names come from wall-clock milliseconds)")
     return {
         "explanation": "sibling agreement between the allocator's block layout and the recovery scan's stride/limit (symbolic expressions on MIR), and a loop-exit rule on the natural loop "
